@@ -90,6 +90,7 @@ func oracleTgen(c fw.Case) *fw.OracleFailure {
 	cmds := parseTgenCmds(c.Args[3])
 	frames := strings.Split(strings.TrimPrefix(res, "ok "), ",")
 	defaults := terminal.VerifDefaultHandles(termVersion(v))
+	produced := 0 // frames generated so far: a request that yields no frame consumes no serial number
 	for i, fh := range frames {
 		cmd := cmds[i]
 		tag := fmt.Sprintf("%04x", cmd.id)
@@ -126,7 +127,8 @@ func oracleTgen(c fw.Case) *fw.OracleFailure {
 		if verFlag != wantFlag || len(plain) != 2+2+btoi(wantFlag)+wantLen+2+len(m.Body)+1 {
 			return &fw.OracleFailure{Sig: "term/layout", Msg: fmt.Sprintf("version %d frame has version flag %v and %d plain bytes for a %d-byte body", v, verFlag, len(plain), len(m.Body))}
 		}
-		if want := uint16(skip + i + 1); h.SerialNumber != want {
+		produced++
+		if want := uint16(skip + produced); h.SerialNumber != want {
 			return &fw.OracleFailure{Sig: "term/serial", Msg: fmt.Sprintf("frame %d after %d earlier ones has serial %d, want %d", i, skip, h.SerialNumber, want)}
 		}
 		if cmd.custom {
@@ -284,6 +286,7 @@ func genC20(r *fw.Rng, tier string, emit func(fw.Case)) {
 		// serial wrap
 		emit(fw.Case{Op: "tgen", Args: []string{strconv.Itoa(v), randPhone(v), "65533", "0002,0200,0002,0100,0002"}})
 		emit(fw.Case{Op: "tgen", Args: []string{strconv.Itoa(v), randPhone(v), "65535", "0002"}})
+		emit(fw.Case{Op: "tgen", Args: []string{strconv.Itoa(v), randPhone(v), "0", "0002,0800,0002,0104,0801,0200"}})
 	}
 	n := 300
 	if tier == "thorough" {
@@ -309,6 +312,9 @@ func genC20(r *fw.Rng, tier string, emit func(fw.Case)) {
 				}
 				cmds = append(cmds, fmt.Sprintf("%04x:%s", id, fw.Hex(body)))
 			} else {
+				if r.Chance(15) { // a command the simulator has no default for: no frame, and no serial consumed
+					id = []int{0x0800, 0x0104, 0x0801, 0x0805, 0xfff0, 0x8103}[r.Intn(6)]
+				}
 				cmds = append(cmds, fmt.Sprintf("%04x", id))
 			}
 		}
